@@ -182,6 +182,8 @@ def _race(smt2, z3_timeout_s, cvc5_timeout_s):
     try:
         procs["z3-5.1-cli-noematch"] = subprocess.Popen(["z3-new", f"-T:{z3_timeout_s}", "smt.ematching=false", p_z3], stdout=subprocess.PIPE, stderr=subprocess.DEVNULL, text=True)
         procs["cvc5-1.0.3"] = subprocess.Popen([CVC5_BIN, "--strings-exp", f"--tlimit={cvc5_timeout_s * 1000}", p_cvc], stdout=subprocess.PIPE, stderr=subprocess.DEVNULL, text=True)
+        if "String" in smt2:
+            procs["z3-4.8.12"] = subprocess.Popen([Z3_OLD_BIN, f"-T:{cvc5_timeout_s}", p_z3], stdout=subprocess.PIPE, stderr=subprocess.DEVNULL, text=True)
     except FileNotFoundError:
         pass
     detail, final = {}, "unknown"
@@ -192,6 +194,8 @@ def _race(smt2, z3_timeout_s, cvc5_timeout_s):
             if p.poll() is not None:
                 out = (p.stdout.read() or "").strip().splitlines()
                 r = out[0] if out and out[0] in ("sat", "unsat") else "unknown"
+                if r == "sat" and name.startswith("z3-4"):
+                    r = "unknown"   # models of the old z3 on string queries are not validated: only its 'unsat' is used
                 if r == "sat" and name.startswith("z3"):
                     r = _validated(smt2, r)
                 detail[name] = dict(result=r, seconds=round(time.time() - t0, 3))
